@@ -5,7 +5,8 @@
      (V, lam)   eigen-decomposition of C = X^H X / n            [eig_ok]
      d, dinv    d_i = lam_i^((alpha-1)/2) real, d_i dinv_i = 1   (power law only where stated)
      (U, s, Vt) SVD of X for PCA                                [svd_ok]
-   "full column rank" is the premise that the eps cut-off keeps every eigenvalue. *)
+   "full column rank" is the premise that the cut-off (any threshold thr: the absolute eps of the source, or the
+   scale-invariant eps * p * max lam) keeps every eigenvalue. *)
 From Coq Require Import String ZArith List Bool Reals.
 From XV Require Import Base.Scalar Base.Sum Base.Mat Base.RInst Model.Eof Model.Whiten Gen.T5whiten
   Proofs.C01_proofs Proofs.C16_proofs Proofs.C16_real Proofs.C16_tie.
@@ -13,22 +14,22 @@ Import ListNotations.
 
 (* the whitening matrix is Hermitian (whenever it is a matrix at all: alpha < 1) *)
 Theorem C16_T_hermitian : forall (F : Type) (K : Ops F), FieldLaws K ->
-  forall (n p : nat) (X V : mat) (alpha eps : F) (lam d dinv : vec),
+  forall (n p : nat) (X V : mat) (alpha eps thr : F) (lam d dinv : vec),
   eig_ok K p (whiten_cov K n p X) V lam ->
-  (forall i, (i < p)%nat -> whiten_keep K (vget K lam i) eps = true) ->
+  (forall i, (i < p)%nat -> whiten_keep K (vget K lam i) thr = true) ->
   real_vec K p d ->
-  let w := whiten_fit K p alpha eps V lam d dinv in
+  let w := whiten_fit K p alpha eps thr V lam d dinv in
   w_identity w = false -> mH K p p (w_T w) = w_T w.
 Proof. exact (@fit_T_hermitian). Qed.
 Print Assumptions C16_T_hermitian.
 
 (* T and the stored inverse are mutually inverse *)
 Theorem C16_T_Tinv_inverse : forall (F : Type) (K : Ops F), FieldLaws K ->
-  forall (n p : nat) (X V : mat) (alpha eps : F) (lam d dinv : vec),
+  forall (n p : nat) (X V : mat) (alpha eps thr : F) (lam d dinv : vec),
   eig_ok K p (whiten_cov K n p X) V lam ->
-  (forall i, (i < p)%nat -> whiten_keep K (vget K lam i) eps = true) ->
+  (forall i, (i < p)%nat -> whiten_keep K (vget K lam i) thr = true) ->
   (forall i, (i < p)%nat -> fmul K (vget K d i) (vget K dinv i) = f1 K) ->
-  let w := whiten_fit K p alpha eps V lam d dinv in
+  let w := whiten_fit K p alpha eps thr V lam d dinv in
   w_identity w = false ->
   mmul K p p p (w_T w) (w_Tinv w) = mI K p /\ mmul K p p p (w_Tinv w) (w_T w) = mI K p.
 Proof. exact (@fit_T_Tinv). Qed.
@@ -36,24 +37,24 @@ Print Assumptions C16_T_Tinv_inverse.
 
 (* un-whitening restores any data matrix with p features, for every alpha (both branches of the alpha = 1 test) *)
 Theorem C16_unwhiten : forall (F : Type) (K : Ops F), FieldLaws K ->
-  forall (n p : nat) (X V : mat) (alpha eps : F) (lam d dinv : vec),
+  forall (n p : nat) (X V : mat) (alpha eps thr : F) (lam d dinv : vec),
   eig_ok K p (whiten_cov K n p X) V lam ->
-  (forall i, (i < p)%nat -> whiten_keep K (vget K lam i) eps = true) ->
+  (forall i, (i < p)%nat -> whiten_keep K (vget K lam i) thr = true) ->
   (forall i, (i < p)%nat -> fmul K (vget K d i) (vget K dinv i) = f1 K) ->
   forall (m : nat) (Y : mat), wf K m p Y ->
-  let w := whiten_fit K p alpha eps V lam d dinv in
+  let w := whiten_fit K p alpha eps thr V lam d dinv in
   w_inverse_data K m p w (w_transform K m p w Y) = Y.
 Proof. exact (@fit_unwhiten). Qed.
 Print Assumptions C16_unwhiten.
 
 (* patterns mapped into and out of the whitened space (and out of and into it) come back unchanged *)
 Theorem C16_components_roundtrip : forall (F : Type) (K : Ops F), FieldLaws K ->
-  forall (n p : nat) (X V : mat) (alpha eps : F) (lam d dinv : vec),
+  forall (n p : nat) (X V : mat) (alpha eps thr : F) (lam d dinv : vec),
   eig_ok K p (whiten_cov K n p X) V lam ->
-  (forall i, (i < p)%nat -> whiten_keep K (vget K lam i) eps = true) ->
+  (forall i, (i < p)%nat -> whiten_keep K (vget K lam i) thr = true) ->
   (forall i, (i < p)%nat -> fmul K (vget K d i) (vget K dinv i) = f1 K) ->
   forall (m : nat) (P : mat), wf K p m P ->
-  let w := whiten_fit K p alpha eps V lam d dinv in
+  let w := whiten_fit K p alpha eps thr V lam d dinv in
   w_inverse_components K p m w (w_transform_components K p m w P) = P /\
   w_transform_components K p m w (w_inverse_components K p m w P) = P.
 Proof. exact (@fit_components_roundtrip). Qed.
@@ -61,11 +62,11 @@ Print Assumptions C16_components_roundtrip.
 
 (* the N-divisor covariance of the whitened data is V diag(d_i^2 lam_i) V^H; unchanged in the identity branch *)
 Theorem C16_whitened_cov : forall (F : Type) (K : Ops F), FieldLaws K ->
-  forall (n p : nat) (X V : mat) (alpha eps : F) (lam d dinv : vec),
+  forall (n p : nat) (X V : mat) (alpha eps thr : F) (lam d dinv : vec),
   eig_ok K p (whiten_cov K n p X) V lam ->
-  (forall i, (i < p)%nat -> whiten_keep K (vget K lam i) eps = true) ->
+  (forall i, (i < p)%nat -> whiten_keep K (vget K lam i) thr = true) ->
   real_vec K p d ->
-  let w := whiten_fit K p alpha eps V lam d dinv in
+  let w := whiten_fit K p alpha eps thr V lam d dinv in
   whiten_cov K n p (w_transform K n p w X) =
   if w_identity w then whiten_cov K n p X else sandwich K p V (whitened_eigs K p lam d).
 Proof. exact (@fit_whitened_cov). Qed.
@@ -82,23 +83,23 @@ Print Assumptions C16_whitened_cov_power_law.
 
 (* alpha = 0 at full rank (d_i^2 lam_i = 1): the whitened covariance is the identity *)
 Theorem C16_whitened_cov_identity : forall (F : Type) (K : Ops F), FieldLaws K ->
-  forall (n p : nat) (X V : mat) (eps : F) (lam d : vec),
+  forall (n p : nat) (X V : mat) (thr : F) (lam d : vec),
   eig_ok K p (whiten_cov K n p X) V lam ->
-  (forall i, (i < p)%nat -> whiten_keep K (vget K lam i) eps = true) ->
+  (forall i, (i < p)%nat -> whiten_keep K (vget K lam i) thr = true) ->
   real_vec K p d ->
   (forall i, (i < p)%nat -> fmul K (fmul K (vget K d i) (vget K d i)) (vget K lam i) = f1 K) ->
-  whiten_cov K n p (whiten_transform K n p (whiten_T K p eps V lam d) X) = mI K p.
+  whiten_cov K n p (whiten_transform K n p (whiten_T K p thr V lam d) X) = mI K p.
 Proof. exact (@whitened_cov_identity). Qed.
 Print Assumptions C16_whitened_cov_identity.
 
 (* exponent 0 answered by d = 1 (alpha = 1 without the short cut): nothing changes *)
 Theorem C16_whitened_cov_unchanged : forall (F : Type) (K : Ops F), FieldLaws K ->
-  forall (n p : nat) (X V : mat) (eps : F) (lam d : vec),
+  forall (n p : nat) (X V : mat) (thr : F) (lam d : vec),
   eig_ok K p (whiten_cov K n p X) V lam ->
-  (forall i, (i < p)%nat -> whiten_keep K (vget K lam i) eps = true) ->
+  (forall i, (i < p)%nat -> whiten_keep K (vget K lam i) thr = true) ->
   real_vec K p d ->
   (forall i, (i < p)%nat -> vget K d i = f1 K) ->
-  whiten_cov K n p (whiten_transform K n p (whiten_T K p eps V lam d) X) = whiten_cov K n p X.
+  whiten_cov K n p (whiten_transform K n p (whiten_T K p thr V lam d) X) = whiten_cov K n p X.
 Proof. exact (@whitened_cov_unchanged). Qed.
 Print Assumptions C16_whitened_cov_unchanged.
 
@@ -175,6 +176,8 @@ Theorem C16_model_matches_source :
      whiten_rejects K alpha = whiten_alpha_rejected K alpha /\
      whiten_keep K s eps = fmp_keep K s eps /\
      sign_rule K mx mn = svd_sign_rule K mx mn) /\
+  (forall (F : Type) (K : Ops F) (eps smax : F) (p : nat),
+     whiten_threshold K fmp_cutoff_relative eps p smax = fmp_threshold K eps (Z.of_nat p) smax) /\
   (whiten_cov_left_is_conj_transpose = true /\ whiten_solver = "full"%string /\
    whiten_Tinv_is_inv_with_pinv_fallback = true /\
    whiten_T_dims = ["feature"; "mode"]%string /\ whiten_Tinv_dims = ["mode"; "feature"]%string /\
@@ -192,5 +195,5 @@ Theorem C16_model_matches_source :
      pca_inverse_data K n p k V Y = interp K pca_inverse_data_desc (env_of p k n k T Tinv V Y) /\
      pca_transform_components K p k m V P = interp K pca_transform_components_desc (env_of p k p m T Tinv V P) /\
      pca_inverse_components K p k m V Q = interp K pca_inverse_components_desc (env_of p k k m T Tinv V Q)).
-Proof. exact (conj tie_divisor (conj tie_scalars (conj tie_structure (conj tie_whiten_maps tie_pca_maps)))). Qed.
+Proof. exact (conj tie_divisor (conj tie_scalars (conj tie_threshold (conj tie_structure (conj tie_whiten_maps tie_pca_maps))))). Qed.
 Print Assumptions C16_model_matches_source.
